@@ -45,8 +45,8 @@ func TestVerifC09Enum(t *testing.T) {
 	if kit.Thorough() {
 		full = grid{[]int64{0, 1, 2, 3, 4, 5, 6, 7, 9, 12}, []int64{0, 50, 149, 150, 151, 250, 300, 450, 600}}
 		grids = map[int]grid{1: full, 2: full, 3: full,
-			4: {[]int64{0, 1, 3, 5, 8}, []int64{0, 149, 150, 300, 450}},
-			5: {[]int64{0, 4, 9}, []int64{0, 151, 400}}}
+			4: {[]int64{0, 3, 7}, []int64{0, 151, 400}},
+			5: {[]int64{0, 5}, []int64{0, 301}}}
 	}
 	maxSegs := len(grids)
 	var gdesc []string
